@@ -77,7 +77,7 @@ def histogram1d(
     if not isinstance(data, Array):
         data_np = np.asarray(data)
         data = dask.array.from_array(
-            data_np, chunks=int(data_np.shape[0] / options["chunk_split"])
+            data_np, chunks=max(1, int(data_np.shape[0] / options["chunk_split"]))
         )
 
     if not kwargs.get("adaptive", True):
@@ -112,7 +112,11 @@ def histogramdd(data: Union[Array, ArrayLike], bins: Any = None, **kwargs):
     if not isinstance(data, Array):
         data = np.asarray(data)
         data = dask.array.from_array(
-            data, chunks=(int(data.shape[0] / options["chunk_split"]), data.shape[1])
+            data,
+            chunks=(
+                max(1, int(data.shape[0] / options["chunk_split"])),
+                data.shape[1],
+            ),
         )
     else:
         data = rechunk(data, {1: data.shape[1]})
@@ -147,9 +151,11 @@ def histogram2d(data1, data2, bins=None, **kwargs):
         if hasattr(data1, "name") and hasattr(data2, "name"):
             kwargs["axis_names"] = [data1.name, data2.name]
     if not hasattr(data1, "dask"):
-        data1 = dask.array.from_array(data1, chunks=data1.size() / 100)
+        data1 = np.asarray(data1)
+        data1 = dask.array.from_array(data1, chunks=max(1, data1.size // 100))
     if not hasattr(data2, "dask"):
-        data2 = dask.array.from_array(data2, chunks=data2.size() / 100)
+        data2 = np.asarray(data2)
+        data2 = dask.array.from_array(data2, chunks=max(1, data2.size // 100))
 
     data = dask.array.stack([data1, data2], axis=1)
     kwargs["dim"] = 2
